@@ -137,6 +137,9 @@ namespace rkcommon {
 
     inline bool Any::operator==(const Any &rhs) const
     {
+      if (!valid())
+        return !rhs.valid();
+
       return currentValue->isSame(rhs.currentValue.get());
     }
 
